@@ -20,7 +20,7 @@ ASSUMPTIONS = ["independence is claimed for arguments none of which is an ancest
 def gen(rng, n):
     scns, metas = [], []
     for i in range(n):
-        lay = scen.Layout(rng, nested=False)
+        lay = scen.Layout(rng, nested=False, home_name=rng.choice([None, None, None, '/home/u(x', '/home/[u]+', '/home/u%s', '/home/u{0}']))
         # sometimes a volume on which nothing can be trashed: .Trash and .Trash-uid are regular files
         blocked = None
         if lay.vols and rng.random() < 0.35:
@@ -44,6 +44,13 @@ def gen(rng, n):
                 s['steps'][0]['argv'] = ['-f'] + av0
                 m['mode'] = 'force'
         rng.shuffle(args)
+        if m['mode'] != 'interactive' and rng.random() < 0.15:
+            # the very same argument string once more, later on the command line: by then the entry is (normally) gone, so this
+            # occurrence is a path that does not exist - it fails on its own (or is ignored under -f), it is not silently dropped
+            firsts = [a for a in args if a['expect'] == 'trash' and a['kind'] in ('f', 'e', 'd')]
+            if firsts:
+                a0 = rng.choice(firsts)
+                args.append({'arg': a0['arg'], 'kind': 'again', 'entry': None, 'expect': 'missing'})
         av = s['steps'][0]['argv']
         s['steps'][0]['argv'] = av[:av.index('--') + 1] + [a['arg'] for a in args]
         m['blocked'] = blocked
@@ -69,12 +76,17 @@ def judge(run, scn, meta, res, alone, section='state'):
     # which arguments ended trashed / which failed
     failed = []
     ri = 0
+    again_unknown = False
     for a, out in zip(meta['args'], outs):
         ok = None
         if a['kind'] == 'dot' or a['kind'] == 'mount':
             ok = False
         elif a['kind'] == 'missing':
             ok = meta['mode'] == 'force'
+        elif a['kind'] == 'again':
+            first = [o2 for a2, o2 in zip(meta['args'], outs) if a2['arg'] == a['arg'] and a2['kind'] != 'again']
+            ok = (meta['mode'] == 'force') if first and first[0] == 'trashed' else None
+            again_unknown = again_unknown or ok is None
         else:
             if out == 'trashed':
                 ok = True
@@ -101,7 +113,7 @@ def judge(run, scn, meta, res, alone, section='state'):
                  case, key='uncaught-exception', section=section)
         return
     anyfail = len(failed) > 0
-    unknown = any(out == 'none' and a['kind'] not in ('missing', 'dot', 'mount') for a, out in zip(meta['args'], outs))
+    unknown = again_unknown or any(out == 'none' and a['kind'] not in ('missing', 'dot', 'mount', 'again') for a, out in zip(meta['args'], outs))
     if not unknown:
         if (o['exit'] == 0) != (not anyfail):
             run.fail('oracle', 'exit status does not tell the truth: %d although %s' % (o['exit'], 'an argument failed' if anyfail else 'every argument was handled'),
